@@ -95,7 +95,16 @@ def generate(seed, tier):
     if path == "api" and fmt != "lopar" and rng.random() < 0.3:
         second = {"fmt": rng.choice(["pmcfg", "rcg"]),
                   "opts": {"lex_in_grammar": True} if rng.random() < 0.5 else {}}
+    grow = []
+    if fmt == "lopar" and path == "api" and mode is None and not prior and not unencodable \
+            and platform == "Linux" and rng.random() < 0.5:
+        # the caller goes on extracting into the grammar it has just written and writes again
+        for x in tb[:3]:
+            g = model.gap_twin(rng, x) if rng.random() < 0.7 else model.clone(x)
+            if g is not None:
+                grow.append(g)
     return {"tb": tb, "fmt": fmt, "enc": enc, "mode": mode, "path": path, "opts": opts,
+            "grow": grow,
             "second_write": second if not unencodable else None, "unencodable": unencodable,
             "extra": (model.gen_treebank(rng, k, nsent=rng.choice([1, 2]))
                       if rng.random() < 0.3 else []),
@@ -188,7 +197,8 @@ def execute(sc, sim):
     st.declare("word_not_encodable_in_destination_encoding", "same_grammar_written_twice", "extract_into_reread_grammar", "reread_without_final_newline", "earlier_grammars_written_in_same_process", "rule_count_above_1", "ambiguous_word", "non_ascii_word", "fanout_above_1",
                "lex_in_grammar", "cli_path", "own_reader_reread", "grammar_cmd_from_rcg",
                "lopar_refuses_non_cf", "lopar_start_2plus_symbols", "second_hash_seed",
-               "shared_linearization_sequence", "other_platform_refused")
+               "shared_linearization_sequence", "other_platform_refused",
+               "grammar_grows_between_two_lopar_writes", "grown_grammar_no_longer_context_free")
     viols = []
     fmt, enc = sc["fmt"], sc["enc"]
     tb = sc["tb"]
@@ -293,6 +303,41 @@ def execute(sc, sim):
             v["detail"]["first"] = [sc["fmt"], sc["opts"]]
             v["detail"]["second"] = [sw["fmt"], sw["opts"]]
             return done(sc, st, [v])
+    # ---- the written grammar grows and is written again (LoPar: the refusal must follow)
+    if sc.get("grow") and fmt == "lopar" and sc["path"] == "api" and mem_cf:
+        st.probe("grammar_grows_between_two_lopar_writes")
+        st.fault("history")
+        ops = api_ops(dict(sc, second_write=None))
+        for j, x in enumerate(sc["grow"]):
+            ops += [["build", "t", x, 31 + j], ["extract", "t", "g"]]
+        ops += [["gdump", "g"], ["gwrite", "lopar", "g", "/sim/w/out2/g", sc["enc"], {}]]
+        obsg = sim.run(dict(base, sessions=[{"id": "s", "ops": ops}]))
+        st.add_obs(obsg)
+        rg = obsg["sessions"]["s"]
+        dg = [r for r in rg if r["op"] == "gdump" and "ok" in r]
+        wg = [r for r in rg if r["op"] == "gwrite"]
+        if not obsg.get("hang") and len(dg) == 2 and len(wg) == 2 and "exc" not in wg[0] \
+                and not [r for r in rg if "exc" in r and r["op"] != "gwrite"]:
+            mem2, memlex2 = refgram.from_dump(dg[1]["ok"])
+            if not refgram.is_contextfree(mem2):
+                st.probe("grown_grammar_no_longer_context_free")
+                if "exc" not in wg[1]:
+                    return done(sc, st, [cm.viol(
+                        "C09/lopar/non-context-free-grammar-not-refused/after-growth")])
+            elif "exc" in wg[1]:
+                return done(sc, st, [cm.viol("C09/second-write/raised/%s" % wg[1]["exc"],
+                                             msg=wg[1].get("msg"), after="growth")])
+            else:
+                files2 = dict((OUT + p[len("/sim/w/out2/g"):], d)
+                              for p, d in obsg["files"].items()
+                              if p.startswith("/sim/w/out2/g."))
+                v = judge_files(dict(sc, opts={}),
+                                {"files": files2, "writelog": [], "unclosed_at_return": []},
+                                refgram.flat(mem2), memlex2, st, tag="after-growth",
+                                history=False)
+                if v:
+                    v["sig"] = v["sig"].replace("C09/", "C09/after-growth/")
+                    return done(sc, st, [v])
     # ---- second hash seed (set-valued LoPar side files)
     if fmt == "lopar" and sc["path"] == "api":
         obs2 = sim.run(dict(base, sessions=[{"id": "s", "ops": api_ops(sc)}]), hs=1)
@@ -498,6 +543,11 @@ def shrink_candidates(sc):
         c = model.clone(sc)
         c["second_write"]["opts"] = {}
         yield c
+    if sc.get("grow") and len(sc["grow"]) > 1:
+        for j in range(len(sc["grow"])):
+            c = model.clone(sc)
+            del c["grow"][j]
+            yield c
     if sc.get("extra"):
         c = model.clone(sc)
         c["extra"] = []
